@@ -287,6 +287,12 @@ func (e *Engine) Verify(name string) (*VC, error) {
 	cov.ExpectSat = true
 	f.run(st)
 	for i, a := range spec.Asserts {
+		if !f.assertHit[i] && a.Update != "" {
+			// a ghost update attached to an event that does not occur in the code
+			// simply never happens (assertions about the ghost then decide)
+			vc.note("ghost update at %q: no such instruction in %s (the update never happens)", a.Anchor, name)
+			continue
+		}
 		if !f.assertHit[i] {
 			vc.unsupported("spec: assert anchor %q matched no instruction of %s", a.Anchor, name)
 		}
